@@ -1,11 +1,13 @@
 """Mutation sanity for the string-level C12 work (parser inside the model): small realistic
 breaking edits of ural/lru/{stems,conversion}.py that keep the 96 tests of /repo passing.
 Usage:
-  git -C /repo worktree add --detach /tmp/c12mut HEAD
+  git -C /repo worktree add --detach /tmp/c12mut HEAD      (or any scratch git checkout of ural: C12MUT_DIR=<dir>)
   /venv/bin/python notes/c12-string-mutations.py [names...]
-  git -C /repo worktree remove --force /tmp/c12mut"""
+  git -C /repo worktree remove --force /tmp/c12mut
+Since FX-C12-df640b6 the base must hold the fix (`a bracketed literal is never suffix-processed`):
+M16-M18 break it again."""
 import subprocess, sys, os
-SCR = '/tmp/c12mut'
+SCR = os.environ.get('C12MUT_DIR', '/tmp/c12mut')
 WT = os.path.dirname(os.path.dirname(os.path.abspath(__file__)))
 MUTS = {
  'M1-password-needs-user': ('ural/lru/conversion.py', '    if w is not None:\n        auth += ":" + w', '    if w is not None and auth:\n        auth += ":" + w'),
@@ -23,8 +25,12 @@ MUTS = {
  'M13-suffix-last-label-only': ('ural/lru/stems.py', '            lru.append("h:" + suffix)', '            lru.append("h:" + suffix.split(".")[-1])'),
  'M14-fragment-hash-stripped': ('ural/lru/stems.py', '        lru.append("f:" + fragment)', '        lru.append("f:" + fragment.lstrip("#"))'),
  'M15-value-cut-at-second-colon': ('ural/lru/conversion.py', '        tag, value = stem.split(":", 1)', '        tag, value = stem.split(":")[:2]'),
- # not a breaking edit: the proposed fix of KF-C12-1 (the model then lags the code: reported as drift)
- 'P1-kf-c12-1-patch-applied': ('ural/lru/stems.py', '    # Need to process TLD?\n', '    if netloc[0].startswith("["):\n        suffix_aware = False\n\n    # Need to process TLD?\n'),
+ # the fix FX-C12-df640b6 (formerly KF-C12-1) broken again, three ways
+ 'M16-bracket-fix-reverted': ('ural/lru/stems.py', '    if netloc[0].startswith("["):\n        suffix_aware = False\n', '    pass\n'),
+ 'M17-bracket-fix-not-for-zone-ids': ('ural/lru/stems.py', '    if netloc[0].startswith("["):\n        suffix_aware = False\n', '    if netloc[0].startswith("[") and "%" not in netloc[0]:\n        suffix_aware = False\n'),
+ 'M18-bracket-fix-only-ipvfuture': ('ural/lru/stems.py', '    if netloc[0].startswith("["):\n        suffix_aware = False\n', '    if netloc[0].startswith("[v"):\n        suffix_aware = False\n'),
+ # not breaking the property: every host with a percent sign bypasses the suffix (lossless; the model lags: drift)
+ 'P2-percent-hosts-bypass-suffix': ('ural/lru/stems.py', '    if netloc[0].startswith("["):\n        suffix_aware = False\n', '    if netloc[0].startswith("[") or "%" in netloc[0]:\n        suffix_aware = False\n'),
 }
 def sh(cmd, **kw):
     return subprocess.run(cmd, shell=True, stdout=subprocess.PIPE, stderr=subprocess.STDOUT, text=True, **kw)
